@@ -119,6 +119,7 @@ func (c *BaseClient) Connect(ctx context.Context, clientID string, opts ...Conne
 
 	go func() {
 		err := c.serve()
+		simYield("base.afterServe")
 		if errConn := c.Close(); errConn != nil && err == nil {
 			err = errConn
 		}
@@ -127,6 +128,7 @@ func (c *BaseClient) Connect(ctx context.Context, clientID string, opts ...Conne
 			c.SetErrorOnce(err)
 		}
 		c.mu.Unlock()
+		simYield("base.beforeClosedState")
 		c.connStateUpdate(StateClosed)
 		close(c.connClosed)
 	}()
